@@ -401,6 +401,38 @@ pub fn long_stream(g: &mut crate::rng::Rng) -> Vec<Vec<u8>> {
 }
 
 
+/// Run lengths around the places where a receiver may keep a bound, a counter or a threshold.
+pub const RUN_LENGTHS: [u64; 22] = [2, 3, 7, 8, 9, 10, 11, 15, 16, 17, 31, 32, 33, 63, 64, 65, 100, 127, 128, 129, 255, 257];
+
+/// A session with peers up and route traffic, then a *run* of k consecutive messages of one kind the
+/// state machine rejects (Route Monitoring / Peer Down / Statistics for a peer that is not up, a
+/// repeated Peer Up, a payload damaged the same way each time), k from `RUN_LENGTHS`, with no
+/// accepted message in between; then optionally more valid traffic and an ending. Whatever a receiver
+/// counts per session *in a row* (consecutive-error counters, rate limits, back-off, fixed-size
+/// buffers) is driven to and past its bound while peers with routes are up.
+pub fn run_stream(g: &mut crate::rng::Rng) -> Vec<Vec<u8>> {
+    let mut v = vec![initiation()];
+    let up = g.range(1, 2) as usize;                                // peers 0..up are up, peer 2 never is
+    for p in 0..up { v.push(peer_up(p)); }
+    for k in 0..g.below(4) { v.push(route_monitoring(g.below(up as u64) as usize, k as usize)); }
+    let k = RUN_LENGTHS[g.below(RUN_LENGTHS.len() as u64) as usize];
+    let kind = g.below(6);
+    for i in 0..k {
+        let m = match kind {
+            0 => peer_down(2),
+            1 => route_monitoring(2, i as usize),
+            2 => statistics(2),
+            3 => peer_up(0),                                         // repeated Peer Up of an up peer
+            4 => { let mut m = route_monitoring(0, i as usize); let j = m.len() - 1; m[j] = m[j].wrapping_add(1); if m.len() > 60 { m[50] ^= 0xff; } m }
+            _ => { let mut m = peer_down(0); m[5] = 9; m }           // unknown message type in an intact frame
+        };
+        v.push(m);
+    }
+    for k in 0..g.below(3) { v.push(route_monitoring(g.below(up as u64) as usize, 100 + k as usize)); }
+    if g.chance(1, 4) { v.push(termination()); }
+    v
+}
+
 /// An Initiation message whose sysDescr makes the whole message `total` bytes long (any size up to
 /// 64 KiB + header: one information TLV): a well-formed message far beyond one BGP PDU.
 pub fn big_initiation(total: usize) -> Vec<u8> {
